@@ -73,6 +73,13 @@ Proof. exact (parse_no_panic cf ver w). Qed.
 Theorem c05_parse_never_errs_on_valid_streams cf ver w : valid_stream w -> parseM cf ver w <> PErr.
 Proof. exact (parse_no_err cf ver w). Qed.
 
+(* ---- src/ty.rs ValType::parse, REGENERATED: every value type walrus knows is accepted, every other reference type is an error (not a panic) *)
+From WV Require Import Gen.Ops Gen.ValTypes Proofs.ValTypes.
+Theorem c05_unknown_reference_types_rejected : gen_vt_parse X_OtherRef = None.
+Proof. exact vt_unknown_ref_rejected. Qed.
+Theorem c05_known_value_types_accepted : forall x : xvalty, x <> X_OtherRef -> exists v : valty, gen_vt_parse x = Some v.
+Proof. exact vt_parse_total_on_known. Qed.
+
 Print Assumptions c05_every_payload_validated_before_use.
 Print Assumptions c05_bodies_validated_before_use.
 Print Assumptions c05_features_reach_reader_and_validator.
@@ -85,3 +92,5 @@ Print Assumptions c05_default_features.
 Print Assumptions c05_parse_total_on_valid_streams.
 Print Assumptions c05_parse_never_panics_on_valid_streams.
 Print Assumptions c05_parse_never_errs_on_valid_streams.
+Print Assumptions c05_unknown_reference_types_rejected.
+Print Assumptions c05_known_value_types_accepted.
